@@ -16,7 +16,7 @@ from . import common, mcommon
 ID = "C12"
 NEEDS_MODEL = True
 LEVEL = "exploration"
-N = {"quick": 320, "thorough": 8000}
+N = {"quick": 480, "thorough": 8000}
 TECHNIQUE = ("runtime monitoring: offline trace-specification checker (produced-before-consumed, "
              "begin/end exactly once, intersector lifecycle) over the recorded event log of "
              "metrics-mode executions; shards run under different PYTHONHASHSEED values")
@@ -27,7 +27,8 @@ def shard_env(tier, seed, i, n):
 
 
 def classify(spec, problems):
-    return mcommon.kf6(spec, problems)
+    from .. import kf
+    return mcommon.kf6(spec, problems) or kf.classify_name_error(spec, problems)
 
 
 def run_one(st, spec, cs):
